@@ -179,6 +179,13 @@ func runProperty(w *vc.World, prop, tier, repo string) *checkOutcome {
 		obls = append(obls, v.Obls...)
 		out.genErrors = append(out.genErrors, v.Errors...)
 	}
+	if prop == "C07" {
+		v := w.AritySweep()
+		out.vcs = append(out.vcs, v)
+		out.funcs = append(out.funcs, "arity sweep over every function of the module")
+		obls = append(obls, v.Obls...)
+		out.genErrors = append(out.genErrors, v.Errors...)
+	}
 	cfg := vc.SolverCfg{TimeoutSec: 10}
 	if tier == "thorough" {
 		cfg.TimeoutSec = 60
